@@ -11,7 +11,9 @@ import ast
 import keyword
 from pathlib import Path
 
-SRC = Path("/repo/src/pyopenapi_gen")
+import os
+
+SRC = Path(os.environ.get("VERIF_REPO_ROOT", "/repo")) / "src" / "pyopenapi_gen"
 OUT = Path(__file__).resolve().parent.parent / "coq" / "Gen" / "Tables.v"
 
 
